@@ -1,3 +1,5 @@
+import math
+import re
 import struct
 import logging
 import os
@@ -16,6 +18,12 @@ from .exceptions import DeviceError
 
 
 logger = logging.getLogger(__name__)
+
+# what INPUT accepts as a number: Python's int() and float() also take
+# texts like "1_0", "inf", "nan" or non-ASCII digits, which are not numbers
+INPUT_INTEGER_RE = re.compile(r'[+-]?[0-9]+')
+INPUT_FLOAT_RE = re.compile(
+    r'[+-]?([0-9]+\.?[0-9]*|\.[0-9]+)([eE][+-]?[0-9]+)?')
 
 
 class Device:
@@ -344,35 +352,33 @@ class TerminalDevice(Device):
             cells = []
             for v, vtype in zip(values, var_types):
                 if vtype == 1:  # INTEGER
-                    try:
-                        v = int(v)
-                    except ValueError:
+                    if not INPUT_INTEGER_RE.fullmatch(v):
                         return False
+                    v = int(v)
                     if v < -32768 or v > 32767:
                         return False
                     cells.append((CellType.INTEGER, v))
                 elif vtype == 2:  # LONG
-                    try:
-                        v = int(v)
-                    except ValueError:
+                    if not INPUT_INTEGER_RE.fullmatch(v):
                         return False
+                    v = int(v)
                     if v < -2**31 or v >= 2**31:
                         return False
                     cells.append((CellType.LONG, v))
                 elif vtype == 3:  # SINGLE
-                    try:
-                        v = float(v)
-                    except ValueError:
+                    if not INPUT_FLOAT_RE.fullmatch(v):
                         return False
-                    if not expr.Type.SINGLE.can_hold(v):
+                    v = float(v)
+                    if math.isinf(v) or \
+                       not expr.Type.SINGLE.can_hold(v):
                         return False
                     cells.append((CellType.SINGLE, v))
                 elif vtype == 4:  # DOUBLE
-                    try:
-                        v = float(v)
-                    except ValueError:
+                    if not INPUT_FLOAT_RE.fullmatch(v):
                         return False
-                    if not expr.Type.DOUBLE.can_hold(v):
+                    v = float(v)
+                    if math.isinf(v) or \
+                       not expr.Type.DOUBLE.can_hold(v):
                         return False
                     cells.append((CellType.DOUBLE, v))
                 elif vtype == 5:  # STRING
